@@ -553,6 +553,10 @@ def job_matrix(job, nx):
                   pr.pc + [T.b_or(*bad)], bound=f"nx={nx}, any positive kt/h2", replay=(replay_matrix, {"nx": nx}))
 
 
+# concrete replays run on the real code when the changed code uses something the engine does not model (harness.finish)
+FALLBACK = [(replay_relax, {}), (replay_repeat, {}), (replay_repeat, {"cls": "IdealReservoir"}), (replay_reuse, {}), (replay_reuse, {"how": "schedule"}), (replay_inttime, {})]
+
+
 def jobs(tier):
     out = []
     nxs = (3, 4, 5, 6) if tier == "quick" else (3, 4, 5, 6, 8, 10, 12, 16)
